@@ -25,8 +25,11 @@ PROPS = {
     "C04": dict(mix=[("plain", 0.5, {"features": {"max_fcp": 5, "future": True}}),
                      ("plain", 0.5, {"features": {"max_fcp": 5, "future": "always", "max_tasks": 3}})],
                 mc=["MC_runahead", "MC_runahead:MC_runahead_live", "MC_future", "MC_future:MC_future_live"]),
-    "C05": dict(mix=[("plain", 0.6, {"features": {"queues": "always", "max_tasks": 5}}),
-                     ("cmds", 0.4, {"features": {"queues": "always"}, "kinds": ["trigger"]})], mc=["MC_queue", "MC_base"]),
+    "C05": dict(mix=[("plain", 0.45, {"features": {"queues": "always", "max_tasks": 5}}),
+                     ("cmds", 0.3, {"features": {"queues": "always"}, "kinds": ["trigger"]}),
+                     # held tasks sitting in limited queues while others are released past them
+                     ("hold", 0.25, {"features": {"queues": "always", "max_tasks": 5}})],
+                mc=["MC_queue", "MC_base", "MC_trig:MC_trig2", "MC_trig:MC_trig_obs!", "MC_trig", "MC_trig:MC_trig_crash"]),
     "C07": dict(mix=[("plain", 0.4, {"features": {"future": True}}), ("stopcmds", 0.3, {}),
                      ("stopcmds", 0.3, {"features": {"future": "always", "max_fcp": 6}})], mc=["MC_base", "MC_cmds:MC_cmds1"]),
     "C09": dict(mix=[("plain", 0.4, {}), ("faults", 0.6, {"features": {"retries": "always"}})], mc=["MC_msgs"]),
@@ -47,8 +50,8 @@ PROPS = {
     "C28": dict(mix=[("cmds", 0.3, {"kinds": ["trigger"]}), ("cmds", 0.2, {"kinds": ["trigger_reload", "trigger", "reload"]}),
                      ("cmds", 0.25, {"kinds": ["group_trigger"]}),
                      ("cmds", 0.25, {"kinds": ["group_trigger", "retrigger_failed", "retrigger_failed"], "mode": "any",
-                                     "features": {"custom": "always", "started": True}})], mc=["MC_trigger"]),
-    "C29": dict(mix=[("cmds", 1.0, {"kinds": ["set"]})], mc=["MC_set"]),
+                                     "features": {"custom": "always", "started": True}})], mc=["MC_trig:MC_trig2", "MC_trig", "MC_trig:MC_trig_crash"]),
+    "C29": dict(mix=[("cmds", 1.0, {"kinds": ["set"]})], mc=["MC_trig:MC_trig2", "MC_trig"]),
     "C30": dict(mix=[("cmds", 1.0, {"kinds": ["remove", "remove", "trigger", "retrig_remove"]})], mc=["MC_remove"]),
     "C25": dict(mix=[("plain", 0.3, {"policy": {"datastore": True}}), ("faults", 0.2, {"policy": {"datastore": True}}),
                      ("cmds", 0.3, {"policy": {"datastore": True}}), ("hold", 0.2, {"policy": {"datastore": True}})],
@@ -63,7 +66,7 @@ PROPS = {
                      ("warm", 0.4, {"features": {"sequential": "always", "recs": "many", "max_tasks": 3}})], mc=["MC_seq", "MC_base"]),
 }
 N_RUNS = {"quick": 96, "thorough": 1500}
-SLOW_MC = {"MC_queue", "MC_seq", "MC_cmds", "MC_crash"}     # > 30 s: thorough tier only
+SLOW_MC = {"MC_queue", "MC_seq", "MC_cmds", "MC_crash", "MC_trig", "MC_trig_crash"}     # > 30 s: thorough tier only
 
 def _jobs(ctx, cfg, n):
     jobs = []
@@ -159,7 +162,7 @@ def model_check(ctx, cfg):
     mcdir = os.path.join(tlc.SPEC_DIR, "mc")
     done = []
     for spec in cfg.get("mc", []):
-        expect_violation = spec.endswith("!")      # a configuration that must reproduce a known finding
+        expect_violation = spec.endswith("!")      # a configuration that must reproduce a known finding / a recorded observation
         modname, _, cfgname = spec.rstrip("!").partition(":")
         name = cfgname or modname
         mod = os.path.join(mcdir, modname + ".tla")
